@@ -241,3 +241,8 @@ def py_lower(s):
 @prim
 def split_dash(s):
     return s.split('-')
+
+
+@prim
+def join_empty(xs):
+    return ''.join(xs)
